@@ -1,3 +1,43 @@
-From Coq Require Import List String.
-Example C06_placeholder : True. Proof. exact I. Qed.
-Print Assumptions C06_placeholder.
+(** C06 — a path resolves only to the Sid that owns it, and never makes Sid() fail.  Property theorems only. *)
+From Coq Require Import List String Ascii Bool Arith.
+From Spil Require Import Base.Str Base.Dict Base.Outcome Base.PyPath Resolva.Resolver Conf.Conf Conf.Routing Conf.WF Sid.Sid
+  Search.Unfold Search.Finders FS.Fs Data.Data Data.Crash Path.PathProofs Data.DataProofs Data.CrashProofs.
+From SpilGen Require Hamlet.
+Import ListNotations.
+Local Open Scope string_scope.
+
+(* whenever Sid(path=p, config=c) is typed, that Sid's path(c) is p (as a pathlib path: normalised) *)
+Theorem C06_owner : forall c Ld p cfg x, load c = Some Ld -> wf_loadedb Ld = true ->
+  sid_of_path Ld p cfg = Ok x -> sid_bool x = true -> sid_path Ld x cfg = Ok (Some (norm_path p)).
+Proof. exact path_owner. Qed.
+Print Assumptions C06_owner.
+
+(* otherwise it is the empty (False) Sid *)
+Theorem C06_untyped_is_empty : forall c Ld p cfg x, load c = Some Ld -> wf_loadedb Ld = true ->
+  sid_of_path Ld p cfg = Ok x -> sid_bool x = false -> x = empty_sid.
+Proof. exact path_untyped_is_empty. Qed.
+Print Assumptions C06_untyped_is_empty.
+
+(* for every path string and every configured path configuration: a Sid, or ResolvaException... *)
+Theorem C06_total_partial : forall c Ld, load c = Some Ld -> wf_loadedb Ld = true ->
+  forall p cfg, (exists pc, get_path_config Ld cfg = Ok pc) ->
+  (exists x, sid_of_path Ld p cfg = Ok x) \/ sid_of_path Ld p cfg = Raise ResolvaException.
+Proof. exact path_total. Qed.
+Print Assumptions C06_total_partial.
+
+(* ...and that exception can only come from the reverse check of the path the resolved fields format to
+   (the resolver's own exception on desynchronised fields is caught: the repaired D5); it is excluded when the path
+   templates are unambiguous in the sense that format_one's reverse check never sees differing duplicates *)
+Theorem C06_total : forall c Ld, load c = Some Ld -> wf_loadedb Ld = true ->
+  forall p cfg pc, get_path_config Ld cfg = Ok pc ->
+  (forall d t, format_one (lp_resolver pc) d t <> Raise ResolvaException) ->
+  exists x, sid_of_path Ld p cfg = Ok x.
+Proof. exact path_total_ok. Qed.
+Print Assumptions C06_total.
+
+(* instance: a path with desynchronised duplicate fields resolves to the empty Sid on today's configuration *)
+Example C06_desync_instance :
+  let root := match c_path_confs Hamlet.the_conf with pc :: _ => fst (split1_c "{" (match pc_templates pc with (_, t) :: _ => t | [] => "" end)) | [] => "" end in
+  sid_of_path Hamlet.the_loaded (root ++ "HAMLET/PROD/ASSETS/char/ophelia/model/v001/char_ophelib_model_WORK_v001.ma") "" = Ok empty_sid.
+Proof. vm_compute. reflexivity. Qed.
+Print Assumptions C06_desync_instance.
